@@ -78,6 +78,7 @@ struct Dom
             {
                 ops.push_back(Op{"add_track", {c, t}, {}});
                 ops.push_back(Op{"add_track_id", {c, t}, {}});
+                ops.push_back(Op{"add_tracks", {c, t}, {}});
                 ops.push_back(Op{"remove_track_from", {c, t}, {}});
             }
             ops.push_back(Op{"clear_tracks", {c}, {}});
@@ -122,7 +123,7 @@ struct Dom
                 for (int k : gone) m.c[k].live = false;
                 for (auto it = m.pairs.begin(); it != m.pairs.end();) it = gone.count(it->first) ? m.pairs.erase(it) : std::next(it);
             }
-            else if (op.f == "add_track" || op.f == "add_track_id") m.pairs.insert({(int)op.i[0], (int)op.i[1]});
+            else if (op.f == "add_track" || op.f == "add_track_id" || op.f == "add_tracks") m.pairs.insert({(int)op.i[0], (int)op.i[1]});
             else if (op.f == "remove_track_from") m.pairs.erase({(int)op.i[0], (int)op.i[1]});
             else if (op.f == "clear_tracks")
             {
